@@ -28,45 +28,11 @@ def nontrivial(s, t, v):
 # from a (path, id) reference, pids read through the contexts of the resuming tick, cgroups removed / re-created meanwhile -
 # is not run there.  The containment clauses for that path are evaluated on the C07 engine (h_hook): only C01.* clauses count.
 
-def hook_scenarios(rng, tier):
-    from . import C07
-    n = {"quick": 1500, "thorough": 20000, "search": 4000}[tier]
-    for _ in range(n):
-        s = C07.gen_one(rng, tier)
-        s["prop"] = PROP
-        yield s
-
-
 def run(tier, seed, replay=None):
-    import json
-    import os
-    import random
     import sys
-    from .. import core
-    from . import C07
-    mod = sys.modules[__name__]
-
-    def want(c):
-        return c.startswith("C01.")
-    if replay:
-        rp = json.load(open(replay))
-        if rp.get("pass") == "hookcontain":
-            viol, _, _ = core.extra_pass(PROP, "hook", "h_hook", "asan", [rp["scenario"]], tier, seed, want=want, label="hookcontain")
-            for c, p in viol:
-                print("VIOLATION property=%s replay=%s" % (PROP, p))
-            return 1 if viol else 0
-        return core.run_check(mod, tier, seed, replay)
-    rc = core.run_check(mod, tier, seed, replay)
-    esc = tier == "quick" and core.changed_sources() and not os.environ.get("VERIF_NO_ESCALATION")
-    scs = list(hook_scenarios(random.Random(seed * 6037 + 29), "search" if esc else tier))
-    viol, cov, res = core.extra_pass(PROP, "hook", "h_hook", "asan", scs, tier, seed, want=want,
-                                     shrink_candidates=C07.shrink_candidates, label="hookcontain")
-    cov["hookcontain_pass_kills_after_wait"] = sum(1 for s, t, v in res if "ticks_waited" in (v.get("tags") or []))
-    core.merge_extra_into_evidence(PROP, cov, len(viol),
-                                   "containment pass (kill plugins with scripted prekill hooks, h_hook): the C07 scenario space (victims and "
-                                   "fallback candidates removed / re-created while a hook runs); clauses: signals only to pids listed by a "
-                                   "cgroup.procs read of the same attempt inside the victim's subtree, xattr / control-file writes name the "
-                                   "victim, the victim was a candidate when the kill cycle started")
-    for c, p in viol:
-        print("VIOLATION property=%s replay=%s" % (PROP, p))
-    return 1 if (rc or viol) else 0
+    from . import _hookpass
+    return _hookpass.run(sys.modules[__name__], tier, seed, replay, "C01.", "hookcontain",
+                         "containment pass (kill plugins with scripted prekill hooks, h_hook): the C07 scenario space (victims and "
+                         "fallback candidates removed / re-created while a hook runs); clauses: signals only to pids listed by a "
+                         "cgroup.procs read of the same attempt inside the victim's subtree, xattr / control-file writes name the "
+                         "victim, the victim was a candidate when the kill cycle started")
